@@ -3,15 +3,15 @@
 (* first source value, so the first change is 0); signal line = signal(main).  Values [main, line].                   *)
 (* S0 = main changes direction: buy on a low pivot, sell on a high pivot (ReversalSignal(1, 1) seeded 0.0, i.e.       *)
 (* reported one bar after the pivot); S1 = main crosses line (+ upwards); S2 = main crosses 0 (+ upwards).            *)
-(* DEVIATIONS OF THE CODE, followed here: (1) the signal-line average is constructed with the SOURCE PRICE although   *)
-(* it averages a difference of prices (the natural seed is 0): the line starts at the price level and decays from     *)
-(* there, e.g. default config on a constant close 11 gives line 7.857, 5.61, 4.0, ... while main = 0;                 *)
-(* (2) main is the absolute change of the TMA, the linked reference (TRIX) defines the relative change (tma/prev - 1).*)
+(* The signal-line average is seeded with 0, the value of main on the constant prehistory (repaired in /repo: it was   *)
+(* constructed with the SOURCE PRICE, so on a constant close 11 the line read 7.857, 5.61, 4.0, ... while main = 0).   *)
+(* DEVIATION OF THE CODE, followed here: main is the absolute change of the TMA, the linked reference (TRIX) defines   *)
+(* the relative change (tma/prev - 1).                                                                                *)
 \* SPEC: values signals
 EXTENDS IndLib
 
 Trix_Init(cfg, c) == LET src == Src(c, cfg.source)
-                     IN  [tma |-> CascInit(cfg.period1, src), prev |-> src, sig |-> MInit(cfg.signal, src)]
+                     IN  [tma |-> CascInit(cfg.period1, src), prev |-> src, sig |-> MInit(cfg.signal, FxZero)]
 Trix_Step(cfg, st, c, P, V) ==
     LET S   == SrcScale(cfg.source, P, V)
         t   == TMAStep(cfg.period1, st.tma, Src(c, cfg.source))
